@@ -777,6 +777,15 @@ def canon_expr(node: ast.AST, env: Env) -> Term:
         base = canon_expr(node.value, env)
         bsa = single_atom(base) if is_poly(base) else base
         return atom(('attr', bsa if bsa is not None else ('expr', base), node.attr))
+    if isinstance(node, ast.List) and any(isinstance(e, ast.Starred) for e in node.elts):
+        # [a, *rest, b] is [a] + list(rest) + [b] (lists are summed as the repository's rules sum them)
+        total = ZERO
+        for e in node.elts:
+            if isinstance(e, ast.Starred):
+                total = add(total, to_poly(canon_expr(e.value, env)))
+            else:
+                total = add(total, atom(('list', (canon_expr(e, env),))))
+        return total
     if isinstance(node, (ast.Tuple, ast.List)):
         tag = 'tuple' if isinstance(node, ast.Tuple) else 'list'
         return atom((tag, tuple(canon_expr(e, env) for e in node.elts)))
